@@ -10,14 +10,18 @@ EXTENDS Integers, Sequences, FiniteSets, TLC, Json, IOUtils, SequencesExt
 
 ConversionPairs == {"to_DCM", "conjugate", "to_angles", "from_rpy", "q2R.v1", "q2R.v2", "DCM.from_quaternion",
                     "rpy2q", "q_conj", "q_norm",
-                    "from_angles", "from_DCM.inplace", "is_pure", "is_real", "is_versor", "is_identity"}
+                    "from_angles", "from_DCM.inplace", "is_pure", "is_real", "is_versor", "is_identity",
+                    \* the same operations on data stored scalar-last (constructor option order='S' on both paths)
+                    "conjugate[S]", "to_DCM[S]", "to_angles[S]", "is_identity[S]", "is_pure[S]"}
 MethodPairs     == {"from_DCM.shepperd", "from_DCM.hughes", "from_DCM.chiaverini", "from_DCM.sarabandi",
                     "from_DCM.itzhack1", "from_DCM.itzhack2", "from_DCM.itzhack3", "hughes", "chiaverini"}
 MetricPairs     == {"qdist", "qeip", "qcip", "qad", "chordal", "euclidean", "rmse", "rmse_matrices"}
 EstimatorPairs  == {"Tilt.quaternion", "Tilt.rotmat", "Tilt.angles", "Tilt.acc-only", "SAAM.quaternion", "SAAM.rotmat",
                     "TRIAD.rotmat", "TRIAD.quaternion", "TRIAD.ENU", "Davenport", "QUEST", "FLAE.symbolic", "FLAE.eig", "FLAE.newton",
                     "OLEQ.NED", "OLEQ.ENU", "FAMC", "FQA", "FQA.acc-only", "AQUA.acc-mag", "AQUA.acc-only",
-                    "Complementary.am_estimation", "Complementary.am_estimation.acc-only"}
+                    "Complementary.am_estimation", "Complementary.am_estimation.acc-only",
+                    \* a non-default weights option (not normalised): the option is honoured the same way on both paths
+                    "FLAE.symbolic[weights]", "FLAE.eig[weights]", "FLAE.newton[weights]", "QUEST[weights]", "Davenport[weights]", "OLEQ.NED[weights]"}
 TwinPairs == ConversionPairs \cup MethodPairs \cup MetricPairs \cup EstimatorPairs
 
 (* the form the caller's data are in: float arrays of unit-scale values, integer-dtype arrays (raw sensor counts,
